@@ -26,7 +26,7 @@ use vcore::{json, Check, Ctx, Reporter, Spec, Value};
 // watchdog: a hang becomes an attributable death (exit code 124)
 // ---------------------------------------------------------------------------
 static WD_START: AtomicU64 = AtomicU64::new(0); // ms since T0 + 1; 0 = idle
-static WD_LIMIT: AtomicU64 = AtomicU64::new(2000);
+static WD_LIMIT: AtomicU64 = AtomicU64::new(10_000);
 static T0: OnceLock<Instant> = OnceLock::new();
 
 fn now_ms() -> u64 {
@@ -400,7 +400,7 @@ struct Act {
 }
 impl Act {
     fn sql(class: impl Into<String>, s: impl Into<String>) -> Act {
-        Act { class: class.into(), pre: vec![], sql: Sql::Text(s.into()), params: None, api: None, also: true, post: vec![], limit_ms: 2000, skip: false }
+        Act { class: class.into(), pre: vec![], sql: Sql::Text(s.into()), params: None, api: None, also: true, post: vec![], limit_ms: 10_000, skip: false }
     }
     fn info(&self) -> String {
         match (&self.api, &self.sql) {
@@ -1037,7 +1037,7 @@ impl ParGen {
         a.params = Some((params, mode));
         a.also = false;
         a.post = vec!["SELECT * FROM t", "SELECT * FROM u", "SELECT j -> 'k', v <-> '[1,2,3]' FROM u"];
-        a.limit_ms = 5000;
+        a.limit_ms = 20_000;
         a
     }
 }
@@ -1117,7 +1117,7 @@ impl PragGen {
             a.pre = vec![self.reduced[x].clone()];
         }
         a.post = vec!["SELECT COUNT(*) FROM t"];
-        a.limit_ms = 5000;
+        a.limit_ms = 20_000;
         a
     }
 }
@@ -1349,7 +1349,7 @@ fn api_gen(mut idx: u64) -> Act {
     }
     let mut a = Act::sql("api", "");
     a.api = Some(ops);
-    a.limit_ms = 5000;
+    a.limit_ms = 20_000;
     a
 }
 
@@ -1378,15 +1378,16 @@ impl Gens {
     fn subs(&self) -> Vec<SubDef> {
         let fq = FUNCS.len() as u64 * FN_PER_Q;
         vec![
-            SubDef { name: "tok", block: 512, quick: tok_count(4), thorough: tok_count(5), bulk: true },
+            // cheap and defect-dense sub-spaces first, the bulk enumerations last (a deadline cuts the tail)
             SubDef { name: "prag", block: 16, quick: self.g.quick(), thorough: self.g.thorough(), bulk: false },
             SubDef { name: "arith", block: 256, quick: arith_count(), thorough: arith_count(), bulk: false },
             SubDef { name: "fn", block: 256, quick: fq, thorough: fq + FUNCS.len() as u64 * 1728, bulk: false },
             SubDef { name: "par", block: 128, quick: *self.p.cum1.last().unwrap(), thorough: self.p.cum1.last().unwrap() + self.p.cum2.last().unwrap(), bulk: false },
+            SubDef { name: "big", block: 1, quick: big_count(), thorough: big_count(), bulk: false },
+            SubDef { name: "api", block: 1, quick: api_count(3), thorough: api_count(4), bulk: false },
+            SubDef { name: "tok", block: 512, quick: tok_count(4), thorough: tok_count(5), bulk: true },
             SubDef { name: "mut", block: 256, quick: self.m.singles(), thorough: self.m.singles() + self.m.pairs(), bulk: false },
             SubDef { name: "lex", block: 1024, quick: self.l.quick(), thorough: self.l.thorough(), bulk: true },
-            SubDef { name: "api", block: 1, quick: api_count(3), thorough: api_count(4), bulk: false },
-            SubDef { name: "big", block: 1, quick: big_count(), thorough: big_count(), bulk: false },
         ]
     }
     fn gen(&self, sub: &str, idx: u64) -> Act {
@@ -1909,7 +1910,7 @@ fn run_case(g: &Gens, sd: &SubDef, idx: u64, env: &mut Env, rep: &mut Reporter, 
     }
     if fix == 1 || fix == 2 {
         let stmts: &[&str] = if fix == 1 { &["TRUNCATE TABLE t", "TRUNCATE TABLE u", FIXTURE[3], FIXTURE[4]] } else { &["DROP TABLE IF EXISTS w", "DROP INDEX IF EXISTS iw", "DROP SCHEMA IF EXISTS s2"] };
-        arm(5000);
+        arm(20_000);
         if let Some(t) = env.db.as_ref() {
             for q in stmts {
                 if !matches!(do_exec(t.db(), q), Out::Changed(_)) {
@@ -1932,6 +1933,9 @@ fn run_case(g: &Gens, sd: &SubDef, idx: u64, env: &mut Env, rep: &mut Reporter, 
         }
     }
     if report {
+        if sub == "mut" && matches!(outs.first(), Some((_, Out::Rows)) | Some((_, Out::Changed(_)))) {
+            rep.sample(|| serde_json::from_str(&cj).unwrap_or(Value::Null));
+        }
         for c in new_classes {
             if !env.seen.contains(&c) {
                 rep.outcome(&c);
@@ -2048,6 +2052,8 @@ fn setup_process(child: bool) {
         WD_MIN_LIMIT.store(10_000, Ordering::Relaxed);
     }
     install_hook();
+    // load the symbol table and libgcc's unwinder now, not inside the first panicking case
+    let _ = turdb_caller();
 }
 
 struct C22;
@@ -2060,7 +2066,7 @@ impl Check for C22 {
             "a case is one input (sub, idx) to the public API on a small 2-table database: tok = every token sequence of length <= 4 (quick) / <= 5 (thorough) over a 37-token alphabet fed to execute (+ query/prepare when it returns rows); mut = for 166 seed statements (every statement kind of parser.rs) every single-token deletion, duplication and substitution by each alphabet token (thorough: every pair of {delete, substitute by 12 tokens} edits); lex = every byte string of length <= 2 (raw and after 'SELECT '), length 3 over 32 bytes (thorough: all 2^24), every single-byte substitution (256 values for seeds <= 32 bytes, thorough <= 64; 8 values otherwise), deletion, truncation and 6-value insertion of every seed, invalid UTF-8 fed through from_utf8_lossy; par = 36 statements x {arity 0..n+2, each position x 40 extreme values of every OwnedValue variant, all-same-value} x {execute_with_params, prepare+bind+execute, prepare+bind+query} (thorough: value pairs); prag = 17 PRAGMA names x {no value, 16 values} x 3 syntaxes + SET/SHOW/RESET on the plain database, a reduced list (7 values) after a WAL-on and an open-transaction prelude (thorough: the full list after both preludes and all ordered pairs of the reduced list); arith = 20 edge operands x 19 binary + 5 unary operators x 7 statement contexts, LIMIT/OFFSET 10x10, aggregates over i64::MIN/MAX; fn = 152 function names x all argument tuples of arity <= 2 over 12 edge values and arity 3 over 6 (thorough 12); api = every sequence of length <= 3 (quick) / <= 4 (thorough) over 13 API operations incl. use-after-close; big = 16 nesting constructs x depth {10,100,1000,10000} and 22 huge inputs (1 MB tokens, 1000 columns, 10000-element lists), each in its own child process. Distinct = distinct input text / parameter list / op sequence; non-trivial = not rejected at the first token.",
         );
         s.assumptions = &[
-            "oracle: every call returns Ok or Err; a caught panic, a dead process (abort, stack overflow, failed allocation) or a watchdog timeout (the worker thread burns 2 s (5 s for multi-call cases, 60 s for the huge inputs of sub-space big) of its own CPU time inside one case, or the case is blocked for max(60 s, 5 x limit) of wall time) is a violation",
+            "oracle: every call returns Ok or Err; a caught panic, a dead process (abort, stack overflow, failed allocation) or a watchdog timeout (the worker thread burns 10 s (20 s for multi-call cases, 60 s for the huge inputs of sub-space big) of its own CPU time inside one case; a normal case takes 0.02-1 ms, or the case is blocked for max(60 s, 5 x limit) of wall time) is a violation",
             "cases of one block share a database whose state is a deterministic function of (sub, block); replay re-runs the block prefix",
             "workers run with RLIMIT_AS = 8 GiB so an absurd allocation request fails instead of exhausting the shared machine",
             "panic sites are named file(function) by looking up the enclosing fn in the /repo source at the panic line",
@@ -2081,7 +2087,6 @@ impl Check for C22 {
         }
         rep.bound("alphabet", json!(ALPHA.to_vec()));
         rep.bound("seed_statements", json!(SEEDS.len()));
-        rep.sample(|| json!({"sub": "mut", "idx": 41, "meaning": "seed 0 'SELECT * FROM t' with one token substituted"}));
         let subs = g.subs();
         'outer: for sd in &subs {
             // development aid: `--opt only=tok,mut` restricts the run to some sub-spaces
